@@ -189,6 +189,7 @@ CANARIES = {
         ("extension-left-behind", "stix2/v21/sdo.py", "text", ["                _unregister_extension(extension_name, '2.1')\n", "                pass\n"], "C19.composite-registration"),
         ("unregistered-extension-key-unvalidated", "stix2/properties.py", "text", ["                    _validate_id(\n                        key, self.spec_version, 'extension-definition--',\n                    )\n", "                    pass\n"], "C19.validation-before-write"),
         ("extension-20-reference-rule", "stix2/registration.py", "text", ['_validate_props(combined_props, version, is_observable20=version == "2.0")', "_validate_props(combined_props, version)"], "C19.validation-before-write"),
+        ("lookup-without-category", "stix2/parsing.py", "text", ['obj_class = registry.class_for_type(obj_type, version, "observables")', 'obj_class = registry.class_for_type(obj_type, version)'], "C19.version-scope"),
     ],
     "C20": [
         ("boundary-overlap", "stix2/confidence/scales.py", "int+1", ["value_to_wep", "39 -> 40"], "C20.specification"),
